@@ -90,6 +90,7 @@ type Exec struct {
 	depth    int
 	nowCount int
 	lastNow  *Node
+	lastNowInit bool
 	uniq     map[string]*Loc // unique.Make canonical objects
 	hidden   map[*Loc]Value  // hidden state for modelled library objects (atomic.Value, sync.Map, ...)
 	goQueue  []func()
@@ -101,6 +102,8 @@ type Exec struct {
 	obsNames []string
 	obsTerms []*Node
 	crcSeen  []crcRec
+	afterFuncs []afterFunc
+	timerTicks int
 	idCounter int
 	pending  []pendingAssert
 	inInit   bool
@@ -1369,6 +1372,10 @@ func (e *Exec) doGo(fr *Frame, g *ssa.Go) {
 		}
 	}
 	e.spawned = append(e.spawned, name)
+	if e.cfg.GoRunMatch != "" && strings.Contains(name, e.cfg.GoRunMatch) {
+		thunk()
+		return
+	}
 	switch e.cfg.GoPolicy {
 	case "run":
 		thunk()
@@ -1825,6 +1832,10 @@ func (e *Exec) chanRecv(ch ChanVal, blocking bool) (Value, bool) {
 		}
 		return nil, false
 	}
+	if ch.c.timer && e.timerTicks > 0 {
+		e.timerTicks--
+		return e.eng.intercepts["time.Now"](e, nil, nil), true
+	}
 	if len(ch.c.buf) > 0 {
 		v := ch.c.buf[0]
 		ch.c.buf = ch.c.buf[1:]
@@ -1842,6 +1853,9 @@ func (e *Exec) chanRecv(ch ChanVal, blocking bool) (Value, bool) {
 func (e *Exec) chanReady(ch ChanVal, send bool) bool {
 	if ch.c == nil {
 		return false
+	}
+	if ch.c.timer && !send {
+		return e.timerTicks > 0
 	}
 	if send {
 		limit := ch.c.cap
